@@ -7,12 +7,25 @@ ChannelStdinFile over a fake channel object (recv / recv_stderr chunked the same
 sendall / sendall_stderr, shutdown_write).
 Domain: streams of 0-20 KiB built from segments (filler + terminator out of \\n, \\r\\n, \\r,
 "", \\n\\n, \\n\\r; raw byte runs over a newline-heavy alphabet); ASCII only in text mode;
-bufsize in {-1, 0, 1, 2, 16, 100, 8192}; modes r, rb, r+, rb+, w, wb, w+, ab (no 'U':
-universal-newline mode is outside the statement); programs (<= 25 ops) of read(n), read(),
+bufsize in {-1, 0, 1, 2, 16, 100, 8192}; modes r, rb, r+, rb+, w, wb, w+, ab, and the universal-newline
+modes rU / rbU (line-oriented programs only, see below); programs (<= 25 ops) of read(n), read(),
 read(-1), readinto(n), readline(), readline(k), next(), `for line in f` (m lines),
 readlines(), readlines(hint >= 1), write(bytes|str, 0-3000 bytes), writelines, flush, close.
 
+Faults: a sized read(n) / readinto(n) op may carry a list of underlying-call numbers at which the stream
+(_read / Channel.recv) raises socket.timeout instead of delivering (before the first byte or after part of the
+requested span was delivered); the program catches it and repeats the same call.  Only sized reads carry faults:
+readline() and read() keep partial data in locals on the unchanged tree, the statement does not define them.
+Universal-newline mode ('U'): lines end at \n, \r or \r\n and are returned with the terminator normalised to \n.
+Programs are line-oriented there (readline(), next, iteration, readlines([hint]), then the final read()): read(n)
+returns raw bytes, so mixing it (or a byte-counting readline(size)) with translated lines has no defined result.
+
 Oracle.
+ universal mode: every line op equals the same op on io.BytesIO(stream with \r\n and \r replaced by \n); the
+   final read() returns the raw rest of the stream behind the last line returned (a \n that belongs to the \r\n
+   which ended that line may or may not be part of it - it depends on whether it had been delivered yet).
+ faults: the value finally returned by the repeated call equals the same call on the reference (nothing lost,
+   duplicated or reordered by the interrupted attempt).
  reads: every return value equals the same call on io.BytesIO(stream) (readline / next /
    iteration / readlines in text mode: its UTF-8 decoding, type str); at the end a final read()
    returns exactly the rest of the stream.  Hence concatenation == stream, lines end at \\n and
@@ -23,6 +36,7 @@ Oracle.
    after each write / writelines everything up to the last \\n written has been delivered.
 """
 import io
+import socket
 
 from hypothesis import strategies as st
 
@@ -33,7 +47,9 @@ LEVEL = "exploration"
 RULE = (
     "hypothesis-generated (target: BufferedFile harness or ChannelFile/StderrFile/StdinFile over a fake channel; mode; bufsize; "
     "segment-built stream with \\n/\\r/\\r\\n-heavy content; cyclic chunk-size lists for the underlying reads and partial writes; "
-    "EOF style; program of <= 25 read/readline/next/iter/readlines/readinto/write/writelines/flush/close ops) compared op by op with io.BytesIO "
+    "EOF style; program of <= 25 read/readline/next/iter/readlines/readinto/write/writelines/flush/close ops; sized reads may carry "
+    "socket.timeout faults at generated underlying-call numbers and are repeated by the program; universal-newline modes rU/rbU "
+    "with line-oriented programs against a translated-stream reference) compared op by op with io.BytesIO "
     "and a prefix/complete-delivery model; non-trivial = some single op needed >= 2 data-returning underlying reads "
     "(a line or sized read spanning chunks) or >= 2 partial _write calls; distinct by SHA-1 of the whole case"
 )
@@ -77,8 +93,19 @@ chunks_st = st.lists(st.sampled_from([1, 1, 2, 3, 5, 7, 16, 64, 500, 1000, 8192,
 
 _n = st.one_of(st.sampled_from([None, -1, 0, 1, 2, 3, 5, 16, 17, 100, 8192, 8193, 20000]), st.integers(0, 300))
 _k = st.one_of(st.sampled_from([None, -1, 0, 1, 2, 3, 5, 16, 80, 8192, 9000]), st.integers(0, 120))
+_faults = st.lists(st.sampled_from([1, 2, 2, 3, 4, 6]), min_size=1, max_size=3, unique=True).map(sorted)
+_nbig = st.sampled_from([2, 3, 5, 16, 17, 100, 300, 8192, 8193, 20000])
+uline_op = st.one_of(
+    st.tuples(st.just("readline"), st.none()),
+    st.tuples(st.just("readline"), st.none()).map(lambda v: v),
+    st.tuples(st.just("next")),
+    st.tuples(st.just("iter"), st.integers(1, 5)),
+    st.tuples(st.just("readlines"), st.sampled_from([None, 1, 2, 10, 100])),
+)
 read_op = st.one_of(
     st.tuples(st.just("read"), _n),
+    st.tuples(st.just("read"), _nbig, _faults),
+    st.tuples(st.just("readinto"), st.sampled_from([2, 7, 100, 9000]), _faults),
     st.tuples(st.just("readline"), _k),
     st.tuples(st.just("readline"), _k),
     st.tuples(st.just("next")),
@@ -93,7 +120,7 @@ write_op = st.one_of(
     st.tuples(st.just("flush")),
 )
 
-READ_MODES = ["r", "rb", "rb", "r+", "rb+"]
+READ_MODES = ["r", "rb", "rb", "r+", "rb+", "rU", "rbU", "rbU"]
 WRITE_MODES = ["w", "wb", "wb", "w+", "ab", "r+", "rb+"]
 
 
@@ -110,12 +137,22 @@ def case_st(draw):
     can_r = ("r" in mode) or ("+" in mode)
     can_w = ("w" in mode) or ("+" in mode) or ("a" in mode)
     kinds = []
-    if can_r and direction != "write":
+    if "U" in mode:
+        kinds += [uline_op]
+    elif can_r and direction != "write":
         kinds += [read_op, read_op.map(lambda v: v)]  # distinct objects: one_of de-duplicates identical ones
     if can_w and direction != "read":
         kinds += [write_op, write_op.map(lambda v: v)]
     if can_w:
         kinds.append(st.tuples(st.just("flush")))
+    if "U" in mode and draw(st.booleans()):
+        # CR-heavy stream delivered in small pieces: terminators fall on delivery boundaries
+        stream = draw(st.lists(st.tuples(st.just("f"), st.integers(0, 4), st.integers(0, 7), st.integers(0, len(TERMS) - 1)), max_size=14))
+        return {
+            "target": target, "mode": mode, "bufsize": draw(st.sampled_from([-1, 0, 1, 2, 16, 100, 8192])), "stream": stream,
+            "rchunks": draw(st.lists(st.sampled_from([1, 2, 3, 5, 7]), min_size=1, max_size=5)), "wparts": [1], "eof": draw(st.integers(0, 2)),
+            "ops": draw(st.lists(uline_op, max_size=25)), "end": "none",
+        }  # fmt: skip
     ops = draw(st.lists(st.one_of(*kinds), max_size=25))
     return {
         "target": target,
@@ -143,8 +180,22 @@ class _Source:
         self.received = bytearray()
         self.data_reads = 0  # underlying reads that returned data (reset per op)
         self.write_calls = 0  # underlying write calls (reset per op)
+        self.calls = 0  # underlying read calls (reset per op)
+        self.fault_at = ()  # call numbers (within the op, across its repetitions) at which the stream raises socket.timeout
+        self.faults = []  # data_reads at the moment of each fault raised in this op
+        self.marks = set()
 
     def take(self, n):
+        self.calls += 1
+        if self.calls in self.fault_at:
+            self.faults.append(self.data_reads)
+            raise socket.timeout()
+        out = self._take(n)
+        if out.endswith(b"\r"):
+            self.marks.add("crlf-split-across-deliveries" if self.stream[self.rp : self.rp + 1] == b"\n" else "lone-cr-ends-delivery")
+        return out
+
+    def _take(self, n):
         if n is None or n <= 0 or self.rp >= len(self.stream):
             return b""
         c = self.rchunks[self.ri % len(self.rchunks)]
@@ -254,13 +305,16 @@ def execute(ctx, case):
     binary = "b" in mode
     stream = _build([tuple(s) for s in case["stream"]], binary)
     src = _Source(stream, case["rchunks"], case["wparts"])
-    ref = io.BytesIO(stream)
+    universal = "U" in mode
+    ref = io.BytesIO(stream.replace(b"\r\n", b"\n").replace(b"\r", b"\n") if universal else stream)
     f, chan = _make_file(case, src)
-    mclass = "binary" if binary else "text"
+    mclass = ("binary" if binary else "text") + (":universal" if universal else "")
     state = {"nontrivial": False, "classes": set(["target:" + target, "mode:" + mclass, "bufsize:%d" % bufsize])}
     try:
         _run_program(ctx, case, f, chan, src, ref, stream, binary, mclass, state)
     finally:
+        if universal:
+            state["classes"].update("universal:" + m for m in src.marks)
         ctx.case(case, state["nontrivial"], sorted(state["classes"]))
         # the object's __del__ flushes; make sure nothing is left to flush into a dead source
         try:
@@ -306,13 +360,30 @@ def _run_program(ctx, case, f, chan, src, ref, stream, binary, mclass, state):
         name = op[0]
         src.data_reads = 0
         src.write_calls = 0
+        src.calls = 0
+        src.faults = []
+        src.fault_at = tuple(op[2]) if (name in ("read", "readinto") and len(op) > 2) else ()
         state["classes"].add("op:" + name)
         try:
             if name == "read":
-                got, want = f.read(op[1]) if op[1] is not None else f.read(), ref.read(op[1]) if op[1] is not None else ref.read()
+                want = ref.read(op[1]) if op[1] is not None else ref.read()
+                for _attempt in range(len(src.fault_at) + 1):
+                    try:
+                        got = f.read(op[1]) if op[1] is not None else f.read()
+                        break
+                    except socket.timeout:
+                        if _attempt == len(src.fault_at):
+                            raise
             elif name == "readinto":
                 b1, b2 = bytearray(op[1]), bytearray(op[1])
-                n1, n2 = f.readinto(b1), ref.readinto(b2)
+                n2 = ref.readinto(b2)
+                for _attempt in range(len(src.fault_at) + 1):
+                    try:
+                        n1 = f.readinto(b1)
+                        break
+                    except socket.timeout:
+                        if _attempt == len(src.fault_at):
+                            raise
                 got, want = (n1, bytes(b1)), (n2, bytes(b2))
             elif name == "readline":
                 got = f.readline(op[1]) if op[1] is not None else f.readline()
@@ -376,10 +447,16 @@ def _run_program(ctx, case, f, chan, src, ref, stream, binary, mclass, state):
         if src.data_reads >= 2 or src.write_calls >= 2:
             state["nontrivial"] = True
             state["classes"].add("spans-chunks:" + name)
+        for before in src.faults:
+            state["classes"].add("fault:timeout-after-partial-delivery:" + name if before else "fault:timeout-before-first-byte:" + name)
+            state["nontrivial"] = state["nontrivial"] or bool(before)
+        src.fault_at = ()
         if name in ("read", "readinto", "readline", "next", "iter", "readlines"):
             if got != want or type(got) is not type(want):
                 arg = op[1] if len(op) > 1 else None
                 argc = "none" if arg is None else ("neg" if arg < 0 else ("zero" if arg == 0 else "sized"))
+                if src.faults:
+                    argc += ":after-timeout-retry"
                 ctx.violation("read-differs", "%s(%s):%s" % (name, argc, tag), case, "%s%r returned %s, io.BytesIO gives %s (stream %d bytes, ref position %d)" % (name, op[1:], _short(got), _short(want), len(stream), ref.tell()))
                 return
         if chan is not None and chan.wrong_side:
@@ -393,6 +470,15 @@ def _run_program(ctx, case, f, chan, src, ref, stream, binary, mclass, state):
         got, want = f.read(), ref.read()
         if src.data_reads >= 2:
             state["nontrivial"] = True
+        if "U" in case["mode"]:
+            # raw rest behind the lines returned so far: map the position in the translated stream back to the raw one
+            t = len(ref.getvalue()) - len(want)
+            q = 0
+            for _ in range(t):
+                q += 2 if stream[q : q + 2] == b"\r\n" else 1
+            want = stream[q:]
+            if got != want and q >= 2 and stream[q - 2 : q] == b"\r\n" and got == b"\n" + want:
+                want = got  # the \n of the \r\n that ended the last line had not been delivered when the line was returned
         if got != want:
             ctx.violation("read-differs", "final-read():%s" % tag, case, "final read() returned %s, rest of the stream is %s" % (_short(got), _short(want)))
             return
